@@ -22,6 +22,8 @@ def convert(input_image_stream, output_image_stream):
     out = output_image_stream
     sz = os.path.getsize(f.name)
     side = int(math.sqrt(sz * 2))
+    if side * side != sz * 2:
+        sys.exit("{} bytes is not a square 4-bit image".format(sz))
     out.write(strtoio("P5\n{} {}\n255\n".format(side, side)))
     s = ["a"] * (sz * 2)
     for y in range(side):
